@@ -112,26 +112,30 @@ Definition pick_last : nat -> list nat -> nat := fun _ fr => last fr O.
 (* ------------------------------------------------------------------ *)
 (* state_list / action_list                                            *)
 (* ------------------------------------------------------------------ *)
-(* explicit: mdp._state_list given.  sortable: `sorted(states)` does not raise
-   TypeError.  ord: iteration order of the built-in set (a permutation). *)
-Definition order_set (sortable : bool) (ord : list nat -> list nat) (l : list nat) : list nat :=
-  if sortable then NatSort.sort l else ord l.
+(* explicit: mdp._state_list given.  cmp x y: Python's `x < y` between the two labels is
+   defined (does not raise TypeError); `sorted(states)` succeeds iff all pairs of distinct elements are
+   comparable, and then the nat order of the ids is Python's order (harness invariant).
+   ord: iteration order of the built-in set (a permutation). *)
+Definition sortable (cmp : nat -> nat -> bool) (l : list nat) : bool :=
+  forallb (fun x => forallb (fun y => Nat.eqb x y || cmp x y) l) l.
+Definition order_set (cmp : nat -> nat -> bool) (ord : list nat -> list nat) (l : list nat) : list nat :=
+  if sortable cmp l then NatSort.sort l else ord l.
 
-Definition state_list (m : fmdp) (explicit : option (list nat)) (sortable : bool)
+Definition state_list (m : fmdp) (explicit : option (list nat)) (cmp : nat -> nat -> bool)
            (ord : list nat -> list nat) pick fuel : list nat :=
   match explicit with
   | Some l => l
-  | None => order_set sortable ord (reachable m pick None fuel)
+  | None => order_set cmp ord (reachable m pick None fuel)
   end.
 
 Definition action_set (m : fmdp) (sl : list nat) : list nat :=
   fold_left (fun acc s => fold_left (fun acc a => add a acc) (factions m s) acc) sl [].
 
-Definition action_list (m : fmdp) (sl : list nat) (explicit : option (list nat)) (sortable : bool)
+Definition action_list (m : fmdp) (sl : list nat) (explicit : option (list nat)) (cmp : nat -> nat -> bool)
            (ord : list nat -> list nat) : list nat :=
   match explicit with
   | Some l => l
-  | None => order_set sortable ord (action_set m sl)
+  | None => order_set cmp ord (action_set m sl)
   end.
 
 (* ------------------------------------------------------------------ *)
